@@ -2,7 +2,7 @@
     Statements only; proofs live in Proofs/FontRTP.v and Proofs/FontToyP.v. *)
 Require Import Norad.Model.GlifSpec Norad.Model.GlifEncode Norad.Proofs.GlifEncodeP Norad.Proofs.GlifRoundtripP Norad.Proofs.GlifFullP.
 Require Import Norad.Model.Base Norad.Model.FontRT Norad.Model.FontToy Norad.Model.FontNum Norad.Model.FontReal Norad.Model.FontRealPlist Norad.Model.FontRealFiles
-               Norad.Proofs.FontRTP Norad.Proofs.FontToyP Norad.Proofs.FontNumP Norad.Proofs.FontRealP Norad.Proofs.FontRealFilesP.
+               Norad.Proofs.FontRTP Norad.Proofs.FontToyP Norad.Proofs.FontNumP Norad.Proofs.FontRealP Norad.Proofs.FontRealFilesP Norad.Proofs.PlistReadP.
 Open Scope N_scope.
 
 (** whatever the format of the input (1, 2 or 3), a loaded font says format 3 *)
@@ -196,3 +196,31 @@ Theorem C04_fixed_point_real_at : forall pf ff ff3 fi fh (K : codecs),
   exists t', save (real_sig pf ff ff3 fi fh K) o f = Ok t' /\
              exists f', load (real_sig pf ff ff3 fi fh K) t' = Ok f' /\ font_equiv (real_sig pf ff ff3 fi fh K) f f'.
 Proof. exact fixed_point_real_at. Qed.
+
+(** ---------- the input condition reduced to its numbers ----------
+    Everything the plist reader returns is a value the plist writer represents — integers within
+    i64 / u64, bytes, well-shaped dates, no repeated key — except that a <real> may be non-finite
+    ([C04_plist_reader_returns_writable]); groups / kerning maps come back in BTreeMap order with
+    valid names; a layer colour read is within 0..1.  So [files_in_domain] follows from
+    [input_numbers_ok t] (Model/FontRealFiles.v), which says only what the readers do not give:
+      - the <real>s of lib.plist and of every layer lib are finite;
+      - the numbers of kerning.plist are finite, canonical and not -0.0 (written as integer 0);
+      - a layer colour is a fixed point of the three-decimal rendering.
+    Remaining hypotheses of the fixed point: these, [glyph_rt_domain] for the loaded glyphs
+    (C04_fixed_point_real says why), [L1_glif] and f64::from_bits(v).to_bits() == v. *)
+Theorem C04_plist_reader_returns_writable : forall pf n v,
+  pv_of pf n = Some v -> reals_finite v = true -> pv_good 0 v = true.
+Proof. exact pv_of_good. Qed.
+Theorem C04_fixed_point_real_all_files_numbers : forall pf ff ff3 fi fh to_bits of_bits lw,
+  L1_glif pf ff ff3 fi fh -> (forall v, to_bits (of_bits v) = v) ->
+  forall o (t : tree (real_sig pf ff ff3 fi fh (all_files pf ff ff3 fi to_bits of_bits lw)))
+         (f : font (real_sig pf ff ff3 fi fh (all_files pf ff ff3 fi to_bits of_bits lw))) mc m,
+  load (real_sig pf ff ff3 fi fh (all_files pf ff ff3 fi to_bits of_bits lw)) t = Ok f ->
+  t_meta _ t = Some mc ->
+  dec (P_meta (real_sig pf ff ff3 fi fh (all_files pf ff ff3 fi to_bits of_bits lw))) mc = Some m -> m_version m = 3 ->
+  input_numbers_ok pf ff ff3 fi fh to_bits of_bits lw t ->
+  Forall (fun l => Forall (fun e : str * str * glyph => glyph_rt_domain pf ff3 (snd e)) (l_glyphs l)) (f_layers _ f) ->
+  exists t', save (real_sig pf ff ff3 fi fh (all_files pf ff ff3 fi to_bits of_bits lw)) o f = Ok t' /\
+             exists f', load (real_sig pf ff ff3 fi fh (all_files pf ff ff3 fi to_bits of_bits lw)) t' = Ok f' /\
+                        font_equiv (real_sig pf ff ff3 fi fh (all_files pf ff ff3 fi to_bits of_bits lw)) f f'.
+Proof. exact fixed_point_all_files_numbers. Qed.
